@@ -1,5 +1,6 @@
 #!/bin/bash
-# Builds the framework offline and warms the Go build cache (plain and -race) so quick checks start fast.
+# Builds the framework offline and warms the Go build cache (plain and -race, with the overlays) so that quick checks
+# start fast. Everything is rebuilt again from /repo's working tree by /verif/check at check time.
 set -u
 export GOFLAGS=-mod=mod GOPROXY=off
 unset GOSUMDB GOTOOLCHAIN
@@ -7,7 +8,10 @@ cd /verif/mc || exit 1
 cp /repo/go.sum go.sum
 mkdir -p /verif/bin /verif/evidence /verif/replays /verif/.work
 go build -o /verif/bin/instrument ./cmd/instrument || exit 1
-# warm: compile every checker once (without overlays; the per-check build then only recompiles what the overlay touches)
-go build -tags verif ./core/... ./bfs/... 2>/dev/null
-(cd /repo && go build ./... ) || exit 1
-exit 0
+(cd /repo && go build ./...) || exit 1
+fail=0
+for d in cmd/c[0-9][0-9]; do
+  id=$(basename "$d" | tr 'a-z' 'A-Z')
+  VERIF_BUILD_ONLY=1 /verif/check "$id" >/dev/null 2>/verif/.work/setup_$id.log || { echo "setup: build of $id failed"; cat /verif/.work/setup_$id.log | head -20; fail=1; }
+done
+exit $fail
